@@ -54,3 +54,10 @@ Fixpoint validb_fuel (fuel : nat) (bs : list N) : bool :=
     end
   end.
 Definition validb (bs : list N) : bool := validb_fuel (S (length bs)) bs.
+
+(* longest common prefix of two character lists *)
+Fixpoint lcp2 (a b : list (list N)) : list (list N) :=
+  match a, b with
+  | x :: a', y :: b' => if list_eqb x y then x :: lcp2 a' b' else []
+  | _, _ => []
+  end.
